@@ -530,7 +530,7 @@ def sp_filter_ok(ex, e, st):
         fm = z3.Function("fmulr", z3.RealSort(), z3.IntSort(), z3.RealSort())
         fs = z3.Function("fsubr", z3.IntSort(), z3.RealSort(), z3.RealSort())
         lo, hi = gc.items[0].term, gc.items[1].term
-        i = z3.Int("w#q")
+        i = z3.Int("i#fok")          # a name no contract lambda can bind (a nested quantifier must not capture the enclosing variable)
         win = z3.ForAll([i], z3.Implies(z3.And(HERE(i), 0 <= i, i < s_.n - k + 1),
                                         z3.And(z3.Not(z3.ToReal(_gc(s_, i, i + k)) > fm(hi, k)), z3.Not(z3.ToReal(_gc(s_, i, i + k)) < fm(lo, k)))),
                         patterns=[HERE(i)])
@@ -997,3 +997,39 @@ def sp_rfm(ex, e, st):
 
 
 SPEC.update({"fmn": sp_fmn, "fm": sp_fm, "levn": sp_levn, "lev": sp_lev, "levarr": sp_levarr, "rfmn": sp_rfmn, "rfm": sp_rfm})
+
+
+def sp_occ_pos(ex, e, st):
+    """occ_pos(m, s): the position of an occurrence of m in s when there is one (skolem function of the definition of `occurs`)."""
+    m, s_ = _seq(ex.ev(e.args[0], st)), _seq(ex.ev(e.args[1], st))
+    return specz3.opos(m.arr, m.start, m.n, s_.arr, s_.start, s_.n)
+
+
+def sp_run_of(ex, e, st):
+    """run_of(f, c): the string of max_homopolymer_runs + 1 copies of the character c (the forbidden run of the filter f), as filter_ok denotes it."""
+    f = ex.ev(e.args[0], st)
+    c = _seq(ex.ev(e.args[1], st))
+    n_ = z3.simplify(z3.If(1 + _int(f.fields["max_homopolymer_runs"]) > 0, 1 + _int(f.fields["max_homopolymer_runs"]), 0))
+    txt = getattr(c, "const", None)
+    return Seq("str", "char", z3.K(z3.IntSort(), iv(ord(txt))), n_)
+
+
+SPEC["occ_pos"] = sp_occ_pos
+SPEC["run_of"] = sp_run_of
+
+
+def sp_rcnt(ex, e, st):
+    """raw cnt(a, d, lo, hi, x) over an array value (lemma language)."""
+    a = ex.ev(e.args[0], st)
+    d, lo, hi, x = [_int(ex.ev(y, st)) for y in e.args[1:5]]
+    return specz3.cnt(a, d, lo, hi, x)
+
+
+def sp_compc(ex, e, st):
+    """compc(x): complement of a character code (an integer): A<->T, C<->G, anything else unchanged."""
+    c = _int(ex.ev(e.args[0], st))
+    return z3.If(c == 65, iv(84), z3.If(c == 84, iv(65), z3.If(c == 67, iv(71), z3.If(c == 71, iv(67), c))))
+
+
+SPEC["rcnt"] = sp_rcnt
+SPEC["compc"] = sp_compc
